@@ -51,6 +51,10 @@ func srvOpt(cfg string) hopkit.SrvOpt {
 		return hopkit.SrvOpt{Ident: ids[0], KEM: kems[0]}
 	case "vhosts": // literal, wildcard-suffix and catch-all patterns
 		return hopkit.SrvOpt{Ident: ids[0], KEM: kems[0], Extra: ids[1:3], ExtraKEM: kems[1:3], Patterns: []string{"a.example", "*.b.example", "*"}}
+	case "one-nokem": // a discoverable-only server that has no KEM key at all
+		return hopkit.SrvOpt{Ident: ids[0]}
+	case "one-authkeys": // clients are verified against authorized keys and the CA store
+		return hopkit.SrvOpt{Ident: ids[0], KEM: kems[0], ClientVerify: pki.Policy("both", "", cid.Key.Public)}
 	case "vhosts-strict": // named blocks only: a name that matches none of them has no certificate
 		return hopkit.SrvOpt{Ident: ids[0], KEM: kems[0], Extra: ids[1:2], ExtraKEM: kems[1:2], Patterns: []string{"a.example", "*.b.example"}}
 	case "hidden1":
@@ -297,6 +301,12 @@ func hostileCerts(real []byte, rng *rand.Rand) (out [][]byte) {
 		out = append(out, b)
 	}
 	out = append(out, append(append([]byte(nil), real...), make([]byte, 50)...))
+	// well-formed certificates of the wrong kind: a root, an intermediate, a leaf of somebody else
+	for _, c := range []*certs.Certificate{pki.TRoot, pki.TInter, pki.FRoot, ids[0].Leaf} {
+		if b, err := c.Marshal(); err == nil {
+			out = append(out, b, b) // twice: the second one meets whatever the first left behind
+		}
+	}
 	return
 }
 
@@ -610,6 +620,10 @@ func main() {
 		// named blocks only (a name may match no block): the states in which a server name is looked up
 		fmt.Println("vhosts-strict", "env-sni")
 		fmt.Println("vhosts-strict", "pending")
+		fmt.Println("one-nokem", "idle")
+		fmt.Println("one-nokem", "established")
+		fmt.Println("one-authkeys", "env-certs")
+		fmt.Println("one-authkeys", "idle")
 		return
 	}
 	cfg, state := os.Args[2], os.Args[3]
